@@ -10,7 +10,10 @@
      ANOTHER bitmap root (parent state, sibling state, one bit flipped, extra zero chunk): as next block, as
      winner of a reorganisation and as block on a losing fork (work <= head) they must be refused; every
      accepted block's output_root must equal the fold with the from-scratch bitmap root of its own state
-     (BitmapTrace!HdrOK), fork blocks included.
+     (BitmapTrace!HdrOK), fork blocks included. The demanded root is computed by the harness per header
+     version (1-2: bare output PMMR root of a reference MMR; from 3: the fold), never through
+     OutputRoots::root; twins with the wrong fold rule (bare root from version 3 on, folded root before)
+     are delivered at every height up to 9 (versions 1, 2, 3 on AutomatedTesting).
 (B') the same events recorded at the txhashset level (h_bitmap direct): the unit of work of
      pipe::process_block - txhashset::extending { Extension::rewind to the fork point, apply_block for the
      fork blocks and the block, force_rollback for a block that does not win } - driven on a real
@@ -189,6 +192,8 @@ DIRECT_NEED = {
     "apply_after_losing_fork_skips_its_chunk": 2,    # ... and the next block leaves that chunk alone
     "reorg_rewind_crosses_chunk_boundary": 1, "probe_crosses_chunk_boundary": 2,
     "wrong_root_next_block": 2, "wrong_root_reorg_winning": 2, "wrong_root_losing_fork": 2,   # header commits to another bitmap: refused
+    "wrong_root_v3": 1, "wrong_root_v4": 1, "wrong_root_v5": 1,   # header versions folding the bitmap root (v1/v2: bare root demanded, checked below)
+    "reopen_fewer_unspent_than_bits_in_complete_chunks": 1,         # a restart with more spent outputs than bits in the last partial chunk
     "refused_blocks": 2,                             # an extension that fails after touching the accumulator
     "reorgs": 3, "ev_Reopen": 3, "ev_Probe": 20, "ev_Stay": 5, "ev_Rewind": 3,
 }
@@ -341,7 +346,8 @@ def run(tier, replay):
     if tr is not None:
         trace_actions = {k: v[1] for k, v in tr.action_counts().items()}
         st = info["stats"]
-        need = {"bad_bitmap_blocks": 1, "wrong_root_next_block": 1, "wrong_root_reorg_winning": 1, "wrong_root_losing_fork": 1, "reorgs": 1, "probe_without_respent": 1, "ev_Reopen": 1, "ev_Probe": 1, "ev_Stay": 1}
+        need = {"bad_bitmap_blocks": 1, "wrong_root_next_block": 1, "wrong_root_reorg_winning": 1, "wrong_root_losing_fork": 1,
+                "wrong_root_v1": 1, "wrong_root_v2": 1, "wrong_root_v3": 1, "reorgs": 1, "probe_without_respent": 1, "ev_Reopen": 1, "ev_Probe": 1, "ev_Stay": 1}
         if thorough:
             need.update({"reorg_rewind_crosses_chunk_boundary": 2, "probe_crosses_chunk_boundary": 2})
         for k, n in need.items():
@@ -403,6 +409,8 @@ def run(tier, replay):
         for k, n in DIRECT_NEED.items():
             if dst.get(k, 0) < n:
                 raise ToolError("txhashset-level scenario did not reach %s >= %d (got %d)" % (k, n, dst.get(k, 0)))
+        if dst.get("wrong_root_v1", 0) + dst.get("wrong_root_v2", 0) < 1:
+            raise ToolError("txhashset-level scenario delivered no folded twin of a version 1/2 block")
         if dinfo["max_chunks"] < 3 or not {0, 1}.issubset(set(dinfo["chunks_with_spends"])):
             raise ToolError("txhashset-level scenario did not span three chunks with spends in old chunks")
         for a in ("TApply", "TRewind", "TProbe", "TReopen", "TStay", "TStart"):
@@ -462,6 +470,11 @@ def run(tier, replay):
         "(every block has a coinbase output and cannot spend its own outputs); without it apply() keeps a trailing "
         "all-zero chunk that init() omits (design probe probe_nolast, reproduced on the real accumulator)",
         "chain level: AutomatedTesting parameters, SKIP_POW; leaf indices below 2^31",
+        "demanded header commitment: computed by the harness per header version (bare output PMMR root up to version 2, "
+        "H(size | PMMR root | from-scratch bitmap root) from version 3), independently of OutputRoots::root; the output PMMR "
+        "root comes from a reference MMR of the harness (grin_core PMMR over an in-memory hash-only backend, all output "
+        "identifiers of the branch in block order; bound by C07) at chain level, from the node's raw output PMMR root at "
+        "txhashset level",
         "txhashset level (B'): the harness plays pipe::process_block's unit of work itself (fork point known to the "
         "harness, extending { rewind, apply_block..., force_rollback unless more work }, head saved) with Mainnet block "
         "weight, dummy range proofs / commitments and one repeated genuine kernel; Block::validate, kernel sums, "
